@@ -35,7 +35,7 @@ EXPLANATION = (
     "application object ends in the system-error exit on every path; R15f every temporary file of a fix pass is "
     "removed or handed to the caller on every normal and exceptional path (CFG pairing with exception edges from "
     "the may-raise analysis); R15g the user's file is replaced atomically, never written in place and never removed; R15h the "
-    "'file was changed' flag survives a later fault; R15i/R15j (=R13b/R13c) per-file state of rules, manager and tokenizer is reset when a file starts, on every path, so a failing file cannot leak into the next one; R15k (=R18c) a failed file always outranks fixed/triggered in the final result; R15l a per-file function that reported an error returns the failure status on that path. R15o every exception handler of the run driver reports the error through the per-file reporter or re-raises, on every path; R15p (=R14n) no failure changes a dispatch list. Not decided: that an error message is helpful; behaviour under "
+    "'file was changed' flag survives a later fault; R15i/R15j (=R13b/R13c) per-file state of rules, manager and tokenizer is reset when a file starts, on every path, so a failing file cannot leak into the next one; R15k (=R18c) a failed file always outranks fixed/triggered in the final result; R15l a per-file function that reported an error returns the failure status on that path. R15o every exception handler of the run driver reports the error through the per-file reporter or re-raises, on every path; R15p (=R14n) no failure changes a dispatch list. R15q (=R16i) a document that cannot be decoded raises (and is reported) instead of being scanned as replaced text; R15g also: the staging name is made by tempfile, not spelled from the user's path. Not decided: that an error message is helpful; behaviour under "
     "SIGKILL between two system calls other than the write-back itself; implicit IndexError/KeyError are internal "
     "errors routed through the catch-all handlers (C01/C07), not modelled as failure sources."
 )
@@ -453,6 +453,14 @@ def r15g(ctx: Context) -> None:
                     # the file that takes the user's place was created here as a temporary (mode 0600): it must be
                     # given the user's file's mode before it is renamed over it, on every path
                     staged = node.args[0]
+                    # the staging name is unique (made by tempfile): a name spelled from the user's path ('<file>.tmp')
+                    # may be a file the user already has next to the document - it is overwritten and renamed away
+                    if isinstance(staged, ast.Name):
+                        for assign in [n for n in walk_local(func.node) if isinstance(n, ast.Assign) and any(isinstance(t, ast.Name) and t.id == staged.id for t in n.targets)]:
+                            reads_user_path = any(isinstance(n, ast.Name) and n.id in params for n in ast.walk(assign.value))
+                            from_tempfile = any(isinstance(c, ast.Call) and (dotted(c.func) or "").split(".")[-1] in ("NamedTemporaryFile", "mkstemp", "mkdtemp", "TemporaryDirectory", "TemporaryFile") for c in ast.walk(assign.value))
+                            if reads_user_path and not from_tempfile:
+                                rule.fail(key + " [unique staging name]", where(func, assign), f"the staged copy is written under '{norm(assign.value)[:80]}', a name spelled from the user's path rather than made by tempfile: a file of that name next to the document is overwritten and then renamed away (and removed by the clean-up when the copy fails)")
                     fresh = isinstance(staged, ast.Name) and any(
                         isinstance(c, ast.Call) and (dotted(c.func) or "").endswith(("NamedTemporaryFile", "mkstemp")) for c in walk_local(func.node)
                     )
@@ -760,6 +768,10 @@ def run(ctx: Context) -> None:
 
     # 'every other file is processed exactly as if the failing file were absent': a failure changes no dispatch list
     c14.dispatch_lists_frozen(ctx, "R15p")
+    from sa.rules import c16
+
+    # an undecodable document is an error that is reported, never a success on replaced text
+    c16.strict_decoding(ctx, "R15q")
     if ctx.tier == "thorough":
         from sa.rules import driver_exploration
 
